@@ -30,7 +30,7 @@ func inClass(cl shapes.Class, coq string) bool {
 }
 
 func check(c *Ctx, r *Report) error {
-	rng := NewRng(c.Seed)
+	rng := NewRng(mixSeed(c.Seed))
 	g := &shapes.Gen{R: rng, Allow: listed}
 	n3 := TierN(c.Tier, 300, 6000, 1500)
 	n2 := TierN(c.Tier, 200, 4000, 1000)
@@ -74,6 +74,14 @@ func check(c *Ctx, r *Report) error {
 	}
 	r.Coverage["max_lipschitz_ratio_seen"] = maxr
 	return nil
+}
+
+// mixSeed spreads consecutive seeds (kit.NewRng(s) and NewRng(s+1) are the same stream shifted by one draw)
+func mixSeed(s uint64) uint64 {
+	z := s*0xD1342543DE82EF95 + 0x632BE59BD9B4E019
+	z = (z ^ (z >> 32)) * 0xDABA0B6EB09322E3
+	z = (z ^ (z >> 29)) * 0x9FB21C651E98DF25
+	return z ^ (z >> 32)
 }
 
 func abs(x float64) float64 {
